@@ -82,7 +82,7 @@ let () =
        | ["slice"; fn; start; n; len] ->
          let form = (try snd (List.find (fun (k, _) -> ocaml_string k = fn) M.slice_forms) with Not_found -> M.SliceUnknown) in
          print_endline (bs (M.slice_guard form (zs start) (zs n) (zs len)))
-       | ["addbit"; b; n] -> let (r, ub) = M.addbit_guard (zs b) (zs n) in print_endline (bs r ^ " ub" ^ bs ub)
+       | ["addbit"; b; n] -> let (r, ub) = M.addbit_guard_f M.addbit_form (zs b) (zs n) in print_endline (bs r ^ " ub" ^ bs ub)
        | ["frag"; i; n] -> print_endline (bs (M.fragment_guard (zs i) (zs n)))
        | ["fraga"; i; n] -> print_endline (bs (M.fragment_guard_all (zs i) (zs n)))
        | ["leaks"] ->
